@@ -86,7 +86,7 @@ def tla_value(v):
 
 _STATES = re.compile(r'^(\d+) states generated, (\d+) distinct states found', re.M)
 _DEPTH = re.compile(r'The depth of the complete state graph search is (\d+)')
-_COV = re.compile(r'^<(\w+) line \d+, col \d+ to line \d+, col \d+ of module (\w+)>: (\d+):(\d+)', re.M)
+_COV = re.compile(r'^<(\w+) line \d+, col \d+ to line \d+, col \d+ of module (\w+)(?: \([\d ]+\))?>: (\d+):(\d+)', re.M)
 _INV = re.compile(r'Error: Invariant (\w+) is violated')
 _ACT = re.compile(r'Error: Action property (\w+) is violated')
 _SIMSTATES = re.compile(r'The number of states generated: (\d+)')
@@ -378,6 +378,10 @@ def validate_traces(module, cfg_text, traces, ctx, *, label=None, timeout=900, d
                 tid = int(m.group(1))
                 seen[tid] = {'tid': base + tid - 1, 'accepted': m.group(2) == 'accepted',
                              'matched': int(m.group(3)), 'len': int(m.group(4)), 'invariant': None}
+        for ln in res.printed:
+            m = re.match(r'^<<"DRIFT", (\d+)>>', ln)
+            if m and int(m.group(1)) in seen:
+                seen[int(m.group(1))]['drift'] = True
         if len(seen) != len(part):
             raise MachineryError(f'trace validation {label}: {len(seen)} verdicts for {len(part)} traces\n{res.out[-2000:]}')
         # invariant violations: -continue prints every violating state; recover the tid from the state dump
@@ -389,6 +393,8 @@ def validate_traces(module, cfg_text, traces, ctx, *, label=None, timeout=900, d
                     tid = int(mt[-1])
                     if tid in seen and seen[tid]['invariant'] is None:
                         seen[tid]['invariant'] = name
+                        ml = re.findall(r'/\\ l = (\d+)', blk)
+                        seen[tid]['inv_event'] = int(ml[-1]) - 2 if ml else None   # 0-based index of the violating event
                         seen[tid]['accepted'] = False
         verdicts += [seen[k] for k in sorted(seen)]
     return verdicts
